@@ -7,6 +7,25 @@ import (
 	"unicode"
 )
 
+// VerifUnicodePreds lists the func(rune) bool predicates of package unicode by name.
+var VerifUnicodePreds = []struct {
+	Name string
+	Fn   func(rune) bool
+}{
+	{"IsUpper", unicode.IsUpper}, {"IsLower", unicode.IsLower}, {"IsTitle", unicode.IsTitle}, {"IsLetter", unicode.IsLetter},
+	{"IsDigit", unicode.IsDigit}, {"IsNumber", unicode.IsNumber}, {"IsSpace", unicode.IsSpace}, {"IsPunct", unicode.IsPunct},
+	{"IsSymbol", unicode.IsSymbol}, {"IsMark", unicode.IsMark}, {"IsControl", unicode.IsControl}, {"IsGraphic", unicode.IsGraphic},
+	{"IsPrint", unicode.IsPrint},
+}
+
+// VerifPredOf returns the rune predicate a prefixRunePredMatcher holds (nil for every other pattern).
+func VerifPredOf(p Pattern) func(rune) bool {
+	if m, ok := p.(*prefixRunePredMatcher); ok {
+		return m.pred
+	}
+	return nil
+}
+
 // VerifDescribe reports which matcher Compile chose for a pattern: its kind, the literal it
 // holds as a string and as bytes (both copies are used by MatchString and Match respectively),
 // and for the rune-predicate matcher the name of the predicate.
@@ -21,11 +40,11 @@ func VerifDescribe(p Pattern) (kind string, s string, b []byte) {
 	case *eqLiteralMatcher:
 		return "eq", m.value.s, m.value.b
 	case *prefixRunePredMatcher:
-		switch reflect.ValueOf(m.pred).Pointer() {
-		case reflect.ValueOf(unicode.IsUpper).Pointer():
-			return "pred", "IsUpper", nil
-		case reflect.ValueOf(unicode.IsLower).Pointer():
-			return "pred", "IsLower", nil
+		pc := reflect.ValueOf(m.pred).Pointer()
+		for _, f := range VerifUnicodePreds {
+			if reflect.ValueOf(f.Fn).Pointer() == pc {
+				return "pred", f.Name, nil
+			}
 		}
 		return "pred", "?", nil
 	}
